@@ -383,6 +383,57 @@ def zernikeAbs {α : Type} [Add α] [Sub α] [Mul α] [Div α] [Neg α] [LT α] 
   (zernikeNL degree).map fun nl =>
     sqrt (cxNormSq (zernikeZ zero one cast sqrt pow eps pi R C im c0 c1 radius nl.1 nl.2))
 
+/-! ## round 4: machine integers for `integral<T>`, `moments(normalize=…, cm=None)`, the radial polynomial -/
+
+/-- a value of an integer dtype of `bits` bits (two's complement when `signed`): the arithmetic of the C++
+    template `integral<T>` on integer `T` — every `+`/`-` result is reduced into the dtype's range
+    (`-fno-strict-overflow`; the narrow types are promoted to `int` and truncated on the store, which is the
+    same reduction). -/
+structure MInt (bits : Nat) (signed : Bool) where
+  v : Int
+deriving DecidableEq
+
+instance {b : Nat} {s : Bool} : Add (MInt b s) := ⟨fun x y => ⟨wrapTo b s (x.v + y.v)⟩⟩
+instance {b : Nat} {s : Bool} : Sub (MInt b s) := ⟨fun x y => ⟨wrapTo b s (x.v - y.v)⟩⟩
+instance {b : Nat} {s : Bool} : OfNat (MInt b s) 0 := ⟨⟨0⟩⟩
+
+/-- the value numpy stores when an integer is converted to the dtype (`astype`) -/
+def MInt.ofInt (b : Nat) (s : Bool) (v : Int) : MInt b s := ⟨wrapTo b s v⟩
+
+/-- `integral<T>` run in the dtype's own arithmetic (wrap-around at every operation) -/
+def integralMachine (bits : Nat) (signed : Bool) (w : Nat) (rows : List (List Int)) : List (List Int) :=
+  (integral w (rows.map fun r => r.map (MInt.ofInt bits signed))).map fun r => r.map (·.v)
+
+/-- `p = np.arange(n, dtype=float); if cm is not None: p -= c; p **= pw; if normalize: p /= p.sum()`
+    (`c = none` is `cm=None`: nothing is subtracted) -/
+def momentWeights {α : Type} [Add α] [Sub α] [Mul α] [Div α] [OfNat α 0] [OfNat α 1] (cast : Nat → α)
+    (n pw : Nat) (c : Option α) (normalize : Bool) : List α :=
+  let p := (List.range n).map fun j => match c with
+    | some c => powN (cast j - c) pw
+    | none => powN (cast j) pw
+  if normalize then
+    let s := gsum 0 p
+    p.map (· / s)
+  else p
+
+/-- `np.dot(xs, ws)` with the weights as a list -/
+def dotList {α : Type} [Add α] [Mul α] [OfNat α 0] : List α → List α → α
+  | x :: xs, w :: ws => x * w + dotList xs ws
+  | _, _ => 0
+
+/-- `moments(img, p0, p1, cm, normalize=…)` as `moments.py` evaluates it:
+    `np.dot(np.dot(img, p_cols), p_rows)` with the two weight vectors of `momentWeights` -/
+def momentsFull {α : Type} [Add α] [Sub α] [Mul α] [Div α] [OfNat α 0] [OfNat α 1] (cast : Nat → α)
+    (R C : Nat) (rows : List (List α)) (p0 p1 : Nat) (cm : Option (α × α)) (normalize : Bool) : α :=
+  let w1 := momentWeights cast C p1 (cm.map (·.2)) normalize
+  let w0 := momentWeights cast R p0 (cm.map (·.1)) normalize
+  dotList (rows.map fun r => dotList r w1) w0
+
+/-- the radial polynomial `R_n^l(d) = Σ_{m ≤ (n-l)/2} g_m · d^(n-2m)` that `znl` accumulates (`zVnl = R · a`) -/
+def zRadial {α : Type} [Add α] [Mul α] [Div α] [Neg α] (zero one : α) (cast : Nat → α) (pow : α → Nat → α)
+    (n l : Nat) (d : α) : α :=
+  (List.range ((n - l) / 2 + 1)).foldl (fun acc m => acc + zcoef one cast n l m * pow d (n - 2 * m)) zero
+
 def zPowF (d : Float) (k : Nat) : Float := Float.pow d (Float.ofNat k)
 /-- `const double pi = atan(1.0)*4;` -/
 def zPiF : Float := Float.atan 1.0 * 4.0
@@ -433,7 +484,8 @@ def handle (a : Args) : String :=
     let spec := (List.range rows.length).flatMap fun i => (List.range w).map fun j => prefix2 rows i j
     let bits := a.nat "bits"
     let wr := fun (v : Int) => if bits == 0 then v else wrapTo bits (a.nat "signed" == 1) v
-    s!"model={showInts (out.map wr)} spec={showInts (spec.map wr)}"
+    let machine := if bits == 0 then out else (integralMachine bits (a.nat "signed" == 1) w rows).flatten
+    s!"model={showInts (out.map wr)} spec={showInts (spec.map wr)} machine={showInts machine}"
   | "integralf" =>
     let w := a.nat "w"
     let rows := chunk w (a.floats "data")
@@ -444,6 +496,16 @@ def handle (a : Args) : String :=
     let p0 := a.nat "p0"; let p1 := a.nat "p1"
     let c0 := a.int "c0"; let c1 := a.int "c1"
     s!"model={moments (fun n => (n : Int)) rows p0 p1 c0 c1} spec={momentsSpec (fun n => (n : Int)) rows p0 p1 c0 c1}"
+  | "momentsf" =>
+    -- `moments` with `normalize` / `cm=None` at Float (np.dot may add in another order: compared at 1e-12)
+    let w := a.nat "w"
+    let rows := chunk w (a.floats "data")
+    let cmf := a.floats "cm"
+    let cm : Option (Float × Float) := if a.nat "hascm" == 1 then some (cmf.headD 0.0, cmf.getD 1 0.0) else none
+    s!"model={showFloats [momentsFull Float.ofNat rows.length w rows (a.nat "p0") (a.nat "p1") cm (a.nat "normalize" == 1)]}"
+  | "zradial" =>
+    let n := a.nat "n"; let l := a.nat "l"
+    s!"r={showFloats ((a.floats "d").map fun d => zRadial 0.0 1.0 Float.ofNat zPowF n l d)}"
   | "zfrac" =>
     let disc := (a.nats "disc").map (· != 0)
     s!"frac={showFloats (zernikeFrac 0.0 disc (a.floats "data"))}"
